@@ -1,0 +1,29 @@
+//go:build verif
+// +build verif
+
+// Package simhook holds the verification hooks of the deterministic
+// simulator under /verif (this file: build tag "verif").
+package simhook
+
+// YieldFn, when set by the simulator, is called at every Yield point.
+var YieldFn func(point string)
+
+// ServeFn, when set by the simulator, serves the pool's handler instead of
+// http.ListenAndServe.
+var ServeFn func(handler interface{}, pool interface{}, storeDriver interface{}, bind string) error
+
+// Yield marks a point inside a storage transaction where the simulator may
+// park the calling goroutine.
+func Yield(point string) {
+	if f := YieldFn; f != nil {
+		f(point)
+	}
+}
+
+// Serve hands the pool's HTTP handler to the simulator if it asked for it.
+func Serve(handler interface{}, pool interface{}, storeDriver interface{}, bind string) (bool, error) {
+	if f := ServeFn; f != nil {
+		return true, f(handler, pool, storeDriver, bind)
+	}
+	return false, nil
+}
